@@ -123,7 +123,12 @@ def build_pts(case, variant, dt):
                 kw.pop("transform_out")
             if variant.get("transforms") == "out-only":
                 kw.pop("transform_in")
-        pt = SimpleProcessTensor(d, dt=(dt if variant.get("pt_dt", True) else None), **kw)
+        if variant.get("container") == "file":
+            # the hand-built tensors go through the HDF5 container (a temporary file, removed by run_case)
+            from oqupy.process_tensor import FileProcessTensor
+            pt = FileProcessTensor("write", hilbert_space_dimension=d, dt=(dt if variant.get("pt_dt", True) else None), **kw)
+        else:
+            pt = SimpleProcessTensor(d, dt=(dt if variant.get("pt_dt", True) else None), **kw)
         anc = np.zeros((ed, ed), dtype=complex)
         anc[a0[e - 1], a0[e - 1]] = 1.0
         for r in range(n):
@@ -140,6 +145,8 @@ def build_pts(case, variant, dt):
                 gin = np.linalg.inv(gmat).T if "transform_in" in kw else np.eye(d * d)
                 gout = gmat.T if "transform_out" in kw else np.eye(d * d)
                 t = np.einsum("iy,pfyx,xo->pfio", gin, t, gout)
+            if variant.get("layout") == "F":
+                t = np.asfortranarray(t)          # assembled with another leg order in memory (not C-contiguous)
             if variant.get("buffer"):
                 # the caller fills one work buffer per shape again and again (complex128, as the process tensor stores it)
                 key = t.shape
@@ -326,6 +333,12 @@ def run_case(job):
         return [{"what": "exception", "detail": "%s: %s" % (type(ex).__name__, str(ex)[:200]),
                  "tb": traceback.format_exc()[-400:]}]
     states = np.array(dyn.states)
+    for pt_ in pts:
+        if hasattr(pt_, "remove") and hasattr(pt_, "filename"):
+            try:
+                pt_.remove()
+            except Exception:  # pylint: disable=broad-except
+                pass
     if variant.get("final_only"):
         # only the final state is recorded: it is the last state of the full record, under the final time
         if len(states) != 1:
